@@ -193,6 +193,7 @@ def handler (prop : String) : Handler := fun op args impl =>
     let (o, t) := match prop with
       | "C16" => oracleC16 op args impl
       | "C20" => oracleC20 op args impl
+      | "C17" => oracleC17 args impl
       | _ => ("na", "")
     some (m, o, t)
 
